@@ -2,10 +2,25 @@ package recovery
 
 import (
 	"encoding/json"
+	"fmt"
 	"io"
+	"slices"
 )
 
+// ListFiles lists the files referenced by the latest checkpoint in a
+// checkpoints file.
 func ListFiles(reader io.Reader) ([]string, error) {
+	return listFiles(reader, nil)
+}
+
+// ListCheckpointFiles lists the files referenced by the checkpoint with the
+// given ID. The checkpoints file is rewritten by every later checkpoint, so the
+// latest entry is not necessarily the one a job checkpoint refers to.
+func ListCheckpointFiles(reader io.Reader, checkpointID uint64) ([]string, error) {
+	return listFiles(reader, &checkpointID)
+}
+
+func listFiles(reader io.Reader, checkpointID *uint64) ([]string, error) {
 	// Decode reader data into checkpoint list JSON document
 	data, err := io.ReadAll(reader)
 	if err != nil {
@@ -16,9 +31,21 @@ func ListFiles(reader io.Reader) ([]string, error) {
 	if err := json.Unmarshal(data, &listDoc); err != nil {
 		return nil, err
 	}
+	if len(listDoc.Checkpoints) == 0 {
+		return nil, fmt.Errorf("checkpoints file has no checkpoints")
+	}
 
-	// Always use the latest checkpoint
+	// Use the latest checkpoint unless a specific one is asked for
 	ckpt := listDoc.Checkpoints[len(listDoc.Checkpoints)-1]
+	if checkpointID != nil {
+		index := slices.IndexFunc(listDoc.Checkpoints, func(doc checkpointDocument) bool {
+			return doc.ID == *checkpointID
+		})
+		if index == -1 {
+			return nil, fmt.Errorf("checkpoint %d not found in checkpoints file", *checkpointID)
+		}
+		ckpt = listDoc.Checkpoints[index]
+	}
 
 	fileNames := []string{}
 
